@@ -64,7 +64,7 @@ func runC01(c *core.Ctx) {
 	}
 	rk := RSAKeys()
 
-	n := c.Pick(400, 20000)
+	n := c.Pick(400, 60000)
 	for i := 0; i < n; i++ {
 		c01Type1(c, i, k1)
 	}
@@ -74,7 +74,7 @@ func runC01(c *core.Ctx) {
 	for i := 0; i < n; i++ {
 		c01Type5(c, i, k5)
 	}
-	for i := 0; i < c.Pick(400, 12000); i++ {
+	for i := 0; i < c.Pick(400, 40000); i++ {
 		c01Type3(c, i, rk)
 	}
 }
